@@ -15,11 +15,16 @@ by the real sh + curl against a loopback recorder and compared with the request 
 """
 from __future__ import annotations
 
+import grp
 import itertools
 import json
+import os
+import pwd
 import re
+import shutil
 import socketserver
 import subprocess
+import tempfile
 import threading
 from concurrent.futures import ThreadPoolExecutor
 
@@ -123,12 +128,65 @@ def impl_filter(hs, known):
 
 
 # ---------------------------------------------------------------------------------------------------------------
-# real sh
+# real sh / real curl, always inside a sandbox: the text under execution is produced by the code under test (or by a
+# mutation of it) and may contain unquoted redirections or commands. Every child process runs with
+#   cwd  = an empty scratch directory (removed at the end of the run),
+#   PATH = a directory that contains nothing but a link to curl,
+#   uid  = nobody (when the check runs as root), so that nothing outside the scratch directory can be written.
+
+
+class Sandbox:
+    def __enter__(self):
+        self.tmp = tempfile.TemporaryDirectory(prefix="verif-c09-")
+        root = self.tmp.name
+        os.chmod(root, 0o755)
+        self.work, self.bin = os.path.join(root, "work"), os.path.join(root, "bin")
+        os.mkdir(self.work)
+        os.chmod(self.work, 0o777)
+        os.mkdir(self.bin)
+        curl = shutil.which("curl")
+        if curl is None or not os.path.exists("/bin/sh"):
+            raise InfraError("curl or /bin/sh not available")
+        os.symlink(curl, os.path.join(self.bin, "curl"))
+        self.curl = curl
+        self.kw = {"cwd": self.work, "env": {"PATH": self.bin, "HOME": self.work, "LC_ALL": "C.UTF-8"}}
+        if os.geteuid() == 0:
+            try:
+                pwd.getpwnam("nobody")
+                self.kw.update(user="nobody", group=grp.getgrgid(pwd.getpwnam("nobody").pw_gid).gr_name)
+            except KeyError:
+                pass
+        global SANDBOX
+        SANDBOX = self
+        return self
+
+    def __exit__(self, *a):
+        global SANDBOX
+        SANDBOX = None
+        self.tmp.cleanup()
+
+    def run(self, argv, timeout=30):
+        for name in os.listdir(self.work):      # whatever an earlier command left behind
+            path = os.path.join(self.work, name)
+            shutil.rmtree(path, ignore_errors=True) if os.path.isdir(path) and not os.path.islink(path) else os.unlink(path)
+        return subprocess.run(argv, stdout=subprocess.PIPE, stderr=subprocess.PIPE, stdin=subprocess.DEVNULL,
+                              timeout=timeout, **self.kw)
+
+
+SANDBOX: Sandbox | None = None
+
+
+def _sandbox() -> Sandbox:
+    if SANDBOX is None:
+        raise InfraError("no sandbox: sh/curl must not be started outside `with Sandbox()`")
+    return SANDBOX
 
 
 def _sh(script: str):
+    sb = _sandbox()
+    # (no clean-up between the parallel sh probes: they only print; files they may create stay inside the sandbox)
     return subprocess.run(["/bin/sh", "-c", script.encode("utf-8")], stdout=subprocess.PIPE, stderr=subprocess.PIPE,
-                          timeout=20)
+                          stdin=subprocess.DEVNULL, timeout=20, **sb.kw)
 
 
 def _split0(out: bytes):
@@ -233,9 +291,8 @@ class Recorder:
 
 
 def run_curl_command(cmd: str):
-    """the printed command, verbatim, through the real sh and the real curl"""
-    return subprocess.run(["/bin/sh", "-c", cmd.encode("utf-8")], stdout=subprocess.PIPE, stderr=subprocess.PIPE,
-                          timeout=30)
+    """the printed command, verbatim, through the real sh and the real curl (sandboxed)"""
+    return _sandbox().run(["/bin/sh", "-c", cmd.encode("utf-8")])
 
 
 # ---------------------------------------------------------------------------------------------------------------
@@ -504,8 +561,9 @@ def judge_commands(chk, drv, mechanism, items, tbl, auto, real_sh=True):
     Returns, aligned with `items`, what the command denotes: curlSem of the argv (specification's shParse, or the real
     sh where the text is outside the specification's fragment); None where no command was printed."""
     all_items, items = items, [it for it in items if it[0] is not None]
-    outs = drv.batch([("judge", {"auto": auto, "orig": orig, "cmd": cmd}) for cmd, orig, _, _ in items])
-    shs = pmap(lambda it: sh_command_argv(it[0]), items) if real_sh else [None] * len(items)
+    outs = drv.batch([("judge", {"auto": auto, "orig": it[1], "cmd": it[0]}) for it in items])
+    # (a request `requests` would have rejected — e.g. a method with shell operators — is never handed to a real shell)
+    shs = pmap(lambda it: sh_command_argv(it[0]) if real_sh and (len(it) < 5 or it[4]) else None, items)
     outside = [(i, real) for i, (j, real) in enumerate(zip(outs, shs)) if j.get("argv") is None and real is not None]
     if outside:
         for (i, _), sem in zip(outside, drv.batch([("curlsem", {"argvs": [real for _, real in outside]})])[0]):
@@ -517,11 +575,12 @@ def judge_commands(chk, drv, mechanism, items, tbl, auto, real_sh=True):
 
 
 def _judge_verdicts(chk, mechanism, items, outs, shs, tbl, auto, real_sh):
-    for (cmd, orig, in_scope, rin), j, real in zip(items, outs, shs):
+    for it, j, real in zip(items, outs, shs):
+        cmd, orig, in_scope, rin = it[:4]
         if "__err__" in j:
             raise InfraError(f"judge failed on {cmd!r}: {j}")
         # specification (a) against the real sh, on exactly the text the implementation printed
-        if real_sh and "\0" not in cmd:
+        if real_sh and (len(it) < 5 or it[4]) and "\0" not in cmd:
             chk.case(f"{mechanism}:sh-spec", key=cmd, nontrivial=True)
             if j["argv"] is not None and real != j["argv"]:
                 raise InfraError(f"specification shParse differs from the real sh on {cmd!r}: spec={j['argv']} sh={real}")
@@ -565,7 +624,7 @@ def corr_generate(chk, drv, tbl, auto, variants, n, wf_only=False, mechanism="ge
         else:
             text, scope = r["body"], True
         scope = scope and m["wf"]
-        items.append((impl if not impl.startswith("<") else None, req_original(r, text), scope, r))
+        items.append((impl if not impl.startswith("<") else None, req_original(r, text), scope, r, bool(m["wf"])))
     denoted = judge_commands(chk, drv, mechanism, items, tbl, auto)
     compare_denotations(chk, mechanism, [(r, m, it[0]) for r, m, it in zip(reqs, outs, items)], denoted)
 
@@ -646,7 +705,7 @@ VALS = ["1", "a b", "it's", '"q"', "$HOME", "`id`", "a/b", "..", "é", "a&b=c", 
 ASCII_VALS = [v for v in VALS if v.isascii() and "\n" not in v]
 HVALS = ["1", "a b", "it's", '"q"', "$HOME", "`id`", "", "x;y", "@x", "application/json", "*/*", "x ", "a: b", "\\", "'"]
 TEXT_BODIES = ["x", "@etc", "@", "@it's", "it's", "a=b", "l1\nl2", "$(id)", "`id`", "\\", "é€", "", "''", "a b", "-d",
-               '"', "{}", "@/etc/hostname"]
+               '"', "{}", "@no/such/file"]
 JSON_BODIES = [{"a": 1}, {"k": "it's"}, {"k": '"q"'}, "@x", "plain", [1, "'"], {"$": "`id`"}, {"n": "a\nb"}, {"u": "é"}, 0,
                None, {"e": ""}, "@"]
 FORM_BODIES = [{"a": "b c"}, {"a": "it's", "b": "@x"}, {"@k": "v"}, {"a": ["1", "2"]}, {"a": ""}, {"é": "€"}, {"a": "x&y=z"}]
@@ -911,8 +970,7 @@ def validate_curl_spec(chk, drv, rec, n):
     sems = drv.batch([("curlsem", {"argvs": argvs})])[0]
     for argv, sem in zip(argvs, sems):
         rec.take()
-        r = subprocess.run(["curl", "-s", "-S", *argv[1:]], stdout=subprocess.PIPE, stderr=subprocess.PIPE, timeout=30,
-                           cwd="/")
+        r = _sandbox().run([_sandbox().curl, "-s", "-S", *argv[1:]])
         recs = rec.take()
         chk.case("curl-spec", key=argv, nontrivial=sem["kind"] != "unsupported", sample={"argv": argv, "spec": sem})
         chk.feature(f"curl-spec:{sem['kind']}")
@@ -1037,7 +1095,7 @@ def detect_variants(chk, drv, tbl):
 # ---------------------------------------------------------------------------------------------------------------
 
 
-def run(chk):
+def _run(chk):
     drv = LineDriver(chk.prop)
     tbl = live_table()
     auto = auto_table(tbl)
@@ -1111,7 +1169,7 @@ def run(chk):
     chk.notes.append(f"quote: all strings over {QUOTE_ALPHABET!r} up to length {5 if chk.thorough else 4}")
 
 
-def replay(chk, data):
+def _replay(chk, data):
     drv = LineDriver(chk.prop)
     tbl = live_table()
     auto = auto_table(tbl)
@@ -1171,3 +1229,13 @@ def replay(chk, data):
         print("real sh :", sh_command_argv(cmd))
         print("spec    :", drv.one("judge", {"auto": auto, "orig": rp["original"], "cmd": cmd}))
     return 0
+
+
+def run(chk):
+    with Sandbox():
+        _run(chk)
+
+
+def replay(chk, data):
+    with Sandbox():
+        return _replay(chk, data)
